@@ -18,7 +18,17 @@ Utcs == [kind : {"utc"}, secs : Secs, nanos : Nanos]
 BitLens == {0, 1, 7, 8, 9, 63, 64, 65, 1000}
 BitVecs == [kind : {"bitvec"}, len : BitLens, pattern : {"zeros", "ones", "alt", "last"}]
 Rates == [kind : {"rate"}, burst : {0, 1, 1000000}, refresh : {"0", "1", "max"}]
-Cases == SockAddrs \cup Durations \cup Utcs \cup BitVecs \cup Rates
+(* The hand-written conversions of the consensus message types (roles/src/validator/messages): presence vs emptiness of optional   *)
+(* and repeated fields, extreme numbers. "empty" = present with zero length - NOT the same value as "absent".                      *)
+Proposals == [kind : {"proposal"}, payload : {"absent", "empty", "one_byte", "large"}, just : {"commit", "timeout"}]
+Timeouts == [kind : {"timeout"}, hv : BOOLEAN, hq : BOOLEAN, view : {"0", "max"}]
+Commits == [kind : {"commit"}, view : {"0", "max"}, number : {"0", "max"}, epoch : {"0", "max"}]
+Blocks == [kind : {"block"}, payload : {"empty", "one_byte", "large"}]
+TQCs == [kind : {"tqc"}, groups : {0, 1, 2}]
+NetAddrs == [kind : {"netaddr"}, version : {"0", "max"}, ts : {"0", "max"}]
+Geneses == [kind : {"genesis"}, schedule : BOOLEAN, first : {"0", "max"}]
+States == [kind : {"replica_state"}, proposals : {0, 1, 2}, payload : {"empty", "one_byte"}, certs : BOOLEAN]
+Cases == SockAddrs \cup Durations \cup Utcs \cup BitVecs \cup Rates \cup Proposals \cup Timeouts \cup Commits \cup Blocks \cup TQCs \cup NetAddrs \cup Geneses \cup States
 ASSUME \A c \in Cases : PrintT(<<"CASE", ToJson(c @@ [lossless |-> TRUE])>>)
 VARIABLE x
 Init == x = 0
